@@ -1168,7 +1168,53 @@ def check_formname(case):
 # --------------------------------------------------------------------------- engine -----
 from xmc.spaces import GenSpace  # noqa: E402
 
-SPACE = GenSpace({"formnames": gen_formnames, "seq": gen_seq, "cat": gen_cat, "voc1": gen_voc1, "vocint": gen_vocint, "vocch": gen_vocch, "vocosm": gen_vocosm, "vocsel": gen_vocsel, "voc2": gen_voc2, "voc3": gen_voc3}, chunk=500)
+def gen_corpus(tier):
+    """the frozen corpus of realistic workbooks (xmc/corpus.py; about a fifth of them are broken forms) and, for every form,
+    every workbook obtained by deleting one survey row (begin / end rows included: unbalanced nesting, references and
+    lists left dangling), writing one survey row twice, emptying one survey cell, or deleting one choices row: the only
+    outcomes are an XForm or the library's error"""
+    from xmc import corpus
+
+    for cid, name, wb in corpus.forms():
+        yield {"g": "corpus", "cid": cid, "wb": wb, "drop": None}
+        n = len(wb["survey"])
+        if n <= 40:
+            for i in range(n):
+                yield {"g": "corpus", "cid": cid, "wb": wb, "drop": i}
+                yield {"g": "corpus", "cid": cid, "wb": wb, "drop": i, "dup": True}
+                for k in sorted(wb["survey"][i]):
+                    if wb["survey"][i][k] not in (None, ""):
+                        yield {"g": "corpus", "cid": cid, "wb": wb, "drop": i, "cell": k}
+            for i in range(len(wb.get("choices") or ())):
+                yield {"g": "corpus", "cid": cid, "wb": wb, "drop": i, "sheet": "choices"}
+
+
+def check_corpus(case):
+    wb = case["wb"]
+    if case["drop"] is not None:
+        sh = case.get("sheet", "survey")
+        if case.get("cell"):  # one cell emptied
+            rows = [({k: v for k, v in r.items() if k != case["cell"]} if i == case["drop"] else r) for i, r in enumerate(wb[sh])]
+        elif case.get("dup"):  # one row written twice
+            rows = [r2 for i, r in enumerate(wb[sh]) for r2 in ((r, dict(r)) if i == case["drop"] else (r,))]
+        else:  # one row deleted
+            rows = [r for i, r in enumerate(wb[sh]) if i != case["drop"]]
+        wb = dict(wb, **{sh: rows})
+    out = run_convert(wb)
+    viol = []
+    if out.kind == "crash":
+        sig = f"internal-exception:{out.exc}:{out.where}:corpus"
+        ext_nofilter = any(str(r.get("type", "")).split()[:1] in (["select_one_external"], ["select_multiple_external"]) and not r.get("choice_filter") for r in wb["survey"])
+        if out.exc == "KeyError" and out.where.endswith(":add_choices_info_to_question") and ext_nofilter:
+            # the listed defect (external select without a choice_filter), reached here by emptying that cell: same input feature, same signature
+            sig = "internal-exception:KeyError:pyxform/xls2json.py:add_choices_info_to_question:col=choice_filter,type=select_one_external e"
+        viol.append((sig, f"{out.exc} at {out.where}: {out.msg} corpus={case['cid']} drop={case['drop']} cell={case.get('cell')}"))
+    elif out.kind == "reject" and not (out.msg or "").strip():
+        viol.append(("empty-message:corpus", case["cid"]))
+    return {"outcome": f"corpus-{out.kind}", "nt": case["drop"] is not None and not viol, "viol": viol, "tr": len(wb["survey"])}
+
+
+SPACE = GenSpace({"corpus": gen_corpus, "formnames": gen_formnames, "seq": gen_seq, "cat": gen_cat, "voc1": gen_voc1, "vocint": gen_vocint, "vocch": gen_vocch, "vocosm": gen_vocosm, "vocsel": gen_vocsel, "voc2": gen_voc2, "voc3": gen_voc3}, chunk=500)
 blocks = SPACE.blocks
 expand = SPACE.expand
 
@@ -1187,4 +1233,6 @@ def check_one(case):
         return check_hdr(case)
     if g == "formname":
         return check_formname(case)
+    if g == "corpus":
+        return check_corpus(case)
     return check_voc(case)
